@@ -7,5 +7,7 @@ EXTENDS Loop, Json
    consumed when it put (field n) - the driver replays these arrival orders on the real steps.   *)
 FinalJ == [N |-> N, scatter |-> Scatter, p3 |-> hist.p3, p4 |-> hist.p4, p8 |-> hist.p8, p6 |-> hist.p6]
 GenEmit == AllDone => PrintT(ToJson(FinalJ))
-GenNext == Next
+\* no Finished: a generated behaviour ends (no successor) when every step has terminated
+GenNext == \/ InFwdPut \/ InFwdTerm \/ LCStep \/ CDTrue \/ CDFalse \/ CDTerm
+           \/ BodyOutAny \/ BodyTermAny \/ LOStepAny \/ TMStepAny \/ BPFwd
 =============================================================================
